@@ -1326,7 +1326,13 @@ ChangeQueryFilterCallback(DataNode & node, void * ud)
    ConstMessageRef constMsg2 = node.GetData();
    const bool oldMatches = ((constMsg1() == NULL)||(oldFilter == NULL)||(oldFilter->Matches(constMsg1, &node)));
    const bool newMatches = ((constMsg2() == NULL)||(newFilter == NULL)||(newFilter->Matches(constMsg2, &node)));
-   if (oldMatches != newMatches) NodeChangedAux(node, constMsg2, oldMatches?NodeChangeFlags(NODE_CHANGE_FLAG_ISBEINGREMOVED):NodeChangeFlags());
+   if (oldMatches != newMatches)
+   {
+      // Our client's view of (node) changes only if none of our other subscriptions matches it.  (_subscriptions still holds
+      // the old filter at this point, so the entry whose filter is being changed accounts for one match iff (oldMatches) is true)
+      const uint32 numOtherMatches = _subscriptions.GetMatchCount(node, constMsg1(), 0) - (oldMatches?1:0);
+      if (numOtherMatches == 0) NodeChangedAux(node, constMsg2, oldMatches?NodeChangeFlags(NODE_CHANGE_FLAG_ISBEINGREMOVED):NodeChangeFlags());
+   }
    return node.GetDepth();  // continue traversal as usual
 }
 
